@@ -239,3 +239,83 @@ func VerifHarness_C17_RepeatedSearch() {
 	}
 	verifReach("searched")
 }
+
+// C20 at the command line, on the last-resort path: padded / re-spaced queries print what the
+// clean spelling prints (every matching command is filtered out by platform, so the recovery
+// search answers)
+func VerifHarness_C20_CLIPadded() {
+	home := verifFSHome()
+	dbPath := home + "/db/commands.yml"
+	cmds := []database.Command{
+		{Command: "ipconfig /all", Description: "show network config", Platform: []string{"windows"}},
+		{Command: "show ipconfig help", Description: "config help", Platform: []string{"windows"}},
+		{Command: "netsh show config", Description: "show things", Platform: []string{"windows"}},
+	}
+	verifFSPutDoc(dbPath, "yaml", cmds)
+	base := []string{"ipconfig", "show config"}[verifIntRange("query", 0, 1)]
+	variant := []string{" " + base, base + "  ", "\t" + base, strings.ReplaceAll(base, " ", "  ")}[verifIntRange("variant", 0, 3)]
+	rows := func(out string) []string {
+		var r []string
+		for _, line := range strings.Split(out, "\n") {
+			for _, c := range cmds {
+				if strings.HasSuffix(line, ". "+c.Command) {
+					r = append(r, c.Command)
+				}
+			}
+		}
+		return r
+	}
+	o1, p1 := c17Run("search", "--database", dbPath, "--platform", "macos", "--no-cross-platform", "--no-color", "--", base)
+	o2, p2 := c17Run("search", "--database", dbPath, "--platform", "macos", "--no-cross-platform", "--no-color", "--", variant)
+	verifAssert(!p1 && !p2, "C17: every documented sub-command starts and finishes without crashing")
+	a, b := rows(o1), rows(o2)
+	verifAssert(len(a) == len(b), "C20: command lines differing only in leading, trailing or repeated whitespace print the same results (count)")
+	if len(a) == len(b) {
+		for k := range a {
+			verifAssert(a[k] == b[k], "C20: command lines differing only in leading, trailing or repeated whitespace print the same results")
+		}
+	}
+	verifReach("compared")
+	if len(a) > 0 {
+		verifReach("nonempty")
+	}
+}
+
+// C09 through the save-pipeline handler: re-saving under an existing name, with the write cut
+func VerifHarness_C09_SavePipelineHandler() {
+	home := verifFSHome()
+	path := home + "/.config/cmd-finder/personal.yml"
+	old := []database.Command{
+		{Command: "cat f | wc -l", Description: "counter - 2-step pipeline", Keywords: []string{"pipeline", "workflow"}, Pipeline: true},
+		{Command: "old two", Description: "second"},
+	}
+	verifFSPutDoc(path, "yaml", old)
+	_ = c08Flags(savePipelineCmd, map[string]bool{"description": true})
+	k := verifInt("k")
+	verifAssume(k >= 0)
+	verifFSWritePlan(path, verifIntRange("event", 1, 2), k)
+	killed := verifCatch(func() {
+		savePipelineCmd.Run(savePipelineCmd, []string{"counter", "grep x f | sort | uniq -c | sort -n | head -3"})
+	})
+	verifFSWriteUnlimit()
+	db, lerr := database.LoadDatabase(path)
+	verifAssert(lerr == nil, "C09: everything saved earlier remains loadable")
+	if lerr != nil {
+		return
+	}
+	has := func(cmd string) bool {
+		for _, c := range db.Commands {
+			if c.Command == cmd {
+				return true
+			}
+		}
+		return false
+	}
+	verifAssert(has("old two"), "C09: everything saved earlier remains loadable after any such event")
+	verifAssert(has("cat f | wc -l") || has("grep x f | sort | uniq -c | sort -n | head -3"), "C09: the notebook holds the complete previous or the complete new content (the pipeline saved under this name is there, old or new)")
+	if killed {
+		verifReach("interrupted")
+	} else {
+		verifReach("completed")
+	}
+}
